@@ -122,27 +122,29 @@ def _alarm(*a):
     raise _Timeout()
 
 
-def judge(scen):
+def judge(scen, limit=20):
     """returns list of violations for one graph"""
     from .harness import Run
     topo = Topo(scen)
     cyc = topo.unresolved_cycle()
     run = Run(scen, dict(gates=()), None)
     signal.signal(signal.SIGALRM, _alarm)
-    signal.alarm(10)
+    signal.alarm(limit)
     try:
         res = run.execute()
     except _Timeout:
         res = ("timeout",)
     finally:
         signal.alarm(0)
+    if res[0] == "exc" and res[1] == "_Timeout":
+        res = ("timeout",)
     out = []
 
     def add(kind, msg, cls=None):
         out.append(dict(prop="C06", kind=kind, cls=cls, msg=msg))
     stepped = [e for e in run.trace if e[0] == "B"]
     if res[0] == "timeout":
-        add("does-not-terminate", f"run() did not return within 10 s for {_fmt(scen)}")
+        add("does-not-terminate", f"run() did not return within {limit} s for {_fmt(scen)}")
         return out, cyc is not None
     if res[0] == "build-exc":
         add("connect-failed", f"connect() raised {res[1:]} for {_fmt(scen)}")
@@ -236,6 +238,7 @@ def check(prop, tier):
     for i in range(0, len(gs), 200):
         jobs.append((4, gs[i:i + 200]))
     rep = findings.Reporter("C06")
+    slow = []
     total = cyc_n = 0
     kinds = {}
     sample = None
@@ -245,6 +248,11 @@ def check(prop, tier):
             for v, cyc, scen in res:
                 total += 1
                 cyc_n += bool(cyc)
+                if any(x["kind"] == "does-not-terminate" for x in v):
+                    # a time limit can be hit because the machine is busy: judged again below,
+                    # alone and with a much longer limit, before anything is reported
+                    slow.append(scen)
+                    continue
                 for x in v:
                     sg = (x["kind"], x["cls"])
                     kinds[sg] = kinds.get(sg, 0) + 1
@@ -253,6 +261,12 @@ def check(prop, tier):
                             print("MACHINERY-ERROR", x["msg"])
                             return 2
                         rep.report(x, dict(kind="call", module="mc.enum_c06", scenario=scen))
+    for scen in slow[:20]:
+        v, cyc = judge(scen, limit=180)
+        for x in v:
+            sg = (x["kind"], x["cls"])
+            kinds[sg] = kinds.get(sg, 0) + 1
+            rep.report(x, dict(kind="call", module="mc.enum_c06", scenario=scen))
     rc = rep.finish()
     ex = to_scen(2, (1, 1), ((0, 1, "p"), (1, 0, "w")))
     cov = dict(
